@@ -1,4 +1,5 @@
 """C08 - contracts are checked at the documented points; failures raise the right error (DESIGN.md section 4, C08)."""
+import re
 from collections import Counter
 
 from sim.chart import Cfg, swarm, gen_spec, cond_code, tid, HIST
@@ -54,7 +55,7 @@ class VModel:
 
 def _live(old, vm):
     """__old__ is a shallow copy: the inner list of u is shared with the live context, so its length is the current one"""
-    return None if old is None else (old[0], old[1], vm.w, old[3])
+    return None if old is None else (old[0], old[1], vm.w, old[3], True)
 
 
 def expected(sp, r, vm, flags=None):
@@ -157,6 +158,10 @@ def run(ch, tier):
                     return res.fail('contract-evaluated-in-failed-step', 'conditions evaluated in a step that raised %s' % r.exc_name(),
                                     chart=sp.describe())
                 continue
+            if isinstance(r.exc, sx.CodeEvaluationError):
+                # the generated conditions are probe calls that cannot fail by themselves
+                return res.fail('condition-evaluation-raised', 'evaluating a contract condition raised %s' % re.sub(r'0x[0-9a-f]+', '0x..', str(r.exc))[:160],
+                                chart=sp.describe(), step=r.k)
             raise Abandon('other: unexpected %s in the fault-free twin' % r.exc_name())
         log = [e for e in r.log if e[0] in ('cond', 'entry', 'exit', 'act')]
         flags = []
@@ -167,7 +172,7 @@ def run(ch, tier):
         if got_body != body:
             i = next((i for i, (a, b) in enumerate(zip(got_body, body)) if a != b), min(len(got_body), len(body)))
             return res.fail('evaluation-point', 'position %d of the step: executed %r, documented order requires %r '
-                            '(cond entries are (cond, id, v, __old__.v, event); %s)' % (
+                            '(cond entries are (cond, id, v, (__old__.v, len(__old__.w), len(__old__.u[0]), __old__.box.n, mapping protocol ok), event); %s)' % (
                                 i, got_body[i] if i < len(got_body) else 'nothing', body[i] if i < len(body) else 'nothing',
                                 own.get(body[i][1], ('',))[0] + ' ' + own.get(body[i][1], ('', ''))[1] if i < len(body) and body[i][0] == 'cond' else ''), **ctx)
         rest = [e[:5] for e in log[len(body):]]
